@@ -128,6 +128,43 @@ pub fn ends_with_tree(e: &Expr) -> bool {
     }
 }
 
+/// Does the expression contain a tree wildcard that is not delimited *in the expression* by its
+/// own separators or by the ends of the whole expression (`a{**/b}`, `{a/**}b`, `<**/a:2>`,
+/// `<a/**:2>`)?  The documentation does not define what such a wildcard matches.
+pub fn has_undelimited_tree(e: &Expr) -> bool {
+    fn go(e: &Expr, at_start: bool, at_end: bool) -> bool {
+        let idx: Vec<usize> = (0..e.len()).filter(|i| !e[*i].is_flag()).collect();
+        for (k, &i) in idx.iter().enumerate() {
+            let first = k == 0;
+            let last = k + 1 == idx.len();
+            match &e[i] {
+                Tok::Tree { lead, .. } => {
+                    if (!*lead && !(first && at_start)) || (last && !at_end) {
+                        return true;
+                    }
+                },
+                Tok::Alt(bs) => {
+                    if bs.iter().any(|b| go(b, first && at_start, last && at_end)) {
+                        return true;
+                    }
+                },
+                Tok::Rep { body, hi, .. } => {
+                    let once = *hi == Some(1);
+                    // later iterations are not at the start, earlier ones not at the end
+                    if go(body, first && at_start && once, last && at_end && once)
+                        && (starts_with_tree(body) || ends_with_tree(body) || go(body, true, true))
+                    {
+                        return true;
+                    }
+                },
+                _ => {},
+            }
+        }
+        false
+    }
+    go(e, true, true)
+}
+
 #[derive(Clone, Debug)]
 pub struct GenCfg {
     pub max_depth: usize,
